@@ -282,6 +282,28 @@ impl Changeset {
     }
 }
 
+/// Capacity to pre-allocate for `len` items that each take at least `item_bytes`
+/// encoded bytes: a length sent by a peer is only trusted as far as the remaining
+/// input can back it up.
+pub(crate) fn checked_capacity<'a, C, R>(
+    reader: &R,
+    len: usize,
+    item_bytes: usize,
+) -> Result<usize, C::Error>
+where
+    C: Context,
+    R: Reader<'a, C>,
+{
+    match len
+        .checked_mul(item_bytes)
+        .map(|required| reader.can_read_at_least(required))
+    {
+        Some(Some(true)) => Ok(len),
+        Some(None) => Ok(0),
+        _ => Err(speedy::Error::custom("declared length exceeds the remaining input").into()),
+    }
+}
+
 impl<'a, C> Readable<'a, C> for Changeset
 where
     C: Context,
@@ -314,7 +336,7 @@ where
             }
             2 => {
                 let versions_len = usize::read_from(reader)?;
-                let mut versions = Vec::with_capacity(versions_len);
+                let mut versions = Vec::with_capacity(checked_capacity(reader, versions_len, 16)?);
                 for _ in 0..versions_len {
                     let start = CrsqlDbVersion::read_from(reader)?;
                     let end = CrsqlDbVersion::read_from(reader)?;
@@ -323,12 +345,10 @@ where
                 let ts = Timestamp::read_from(reader)?;
                 Ok(Changeset::EmptySet { versions, ts })
             }
-            _ => {
-                // Read and discard the invalid tag to avoid issues, then create a proper error
-                let _ = reader.read_u8()?;
-                // This is a bit of a hack but should work for speedy contexts
-                panic!("Invalid changeset variant tag: {}", variant_tag);
-            }
+            _ => Err(speedy::Error::custom(format!(
+                "invalid Changeset variant tag: {variant_tag}"
+            ))
+            .into()),
         }
     }
 }
